@@ -39,10 +39,12 @@ def f5c_stale_cache_after_replace(f) -> bool:
         if not pairs:
             return False
         for cached, uncached in pairs:
-            restored = uncached
+            # the two values differ only in *which version* of a replaced function computed them
+            a, b = cached, uncached
             for fn in replaced:
-                restored = re.sub(rf"{fn}v\d+\(", f"{fn}(", restored)
-            if restored != cached or cached == uncached:
+                a = re.sub(rf"{fn}v\d+\(", f"{fn}(", a)
+                b = re.sub(rf"{fn}v\d+\(", f"{fn}(", b)
+            if a != b or cached == uncached:
                 return False
             ok = True
     return ok
@@ -64,3 +66,25 @@ def f22_f23_memoize(f) -> bool:
     v = (f.case or {}).get("violated", [])
     return f.check == "key-iff-value" and bool(v) and all(
         x.startswith("memoize") and ("{duplicate-index-series}" in x or "{dataframes-differ-only-in-index}" in x) for x in v)
+
+
+def f26_nest_after_scope(f) -> bool:
+    """nest_funcs / NestedPipeFunc on a pipeline whose parameters carry a scope: inspect.Parameter rejects 'sc.x'."""
+    if f.check != "rewrites-preserve-values":
+        return False
+    c = _case(f)
+    rw = c.get("rewrites") or []
+    v = (f.case or {}).get("violated", [])
+    return "scope" in rw and any(r in ("nest", "nest-all", "simplify") for r in rw[rw.index("scope") + 1:]) and \
+        bool(v) and all("is not a valid parameter name" in x and ("rewrite nest" in x or "rewrite simplify" in x)
+                        for x in v)
+
+
+def f30_simplify_overlapping_groups(f) -> bool:
+    """simplified_pipeline puts a function into two combinable groups: the second NestedPipeFunc re-declares an output."""
+    if f.check != "rewrites-preserve-values":
+        return False
+    c = _case(f)
+    v = (f.case or {}).get("violated", [])
+    return "simplify" in (c.get("rewrites") or []) and bool(v) and all(
+        "rewrite simplify" in x and "already exists in the pipeline (`NestedPipeFunc_" in x for x in v)
